@@ -496,23 +496,40 @@ private:
         return output;
     }
 
-    std::string parse_unicode_escape() {
+    unsigned int parse_hex4() {
         if (pos_ + 4 > input_.size()) {
             throw std::runtime_error("Truncated unicode escape");
         }
         const std::string_view slice = input_.substr(pos_, 4);
         pos_ += 4;
-        unsigned int codepoint = 0;
+        unsigned int value = 0;
         for (char ch : slice) {
-            codepoint <<= 4;
+            value <<= 4;
             if (ch >= '0' && ch <= '9') {
-                codepoint |= static_cast<unsigned int>(ch - '0');
+                value |= static_cast<unsigned int>(ch - '0');
             } else if (ch >= 'a' && ch <= 'f') {
-                codepoint |= static_cast<unsigned int>(10 + ch - 'a');
+                value |= static_cast<unsigned int>(10 + ch - 'a');
             } else if (ch >= 'A' && ch <= 'F') {
-                codepoint |= static_cast<unsigned int>(10 + ch - 'A');
+                value |= static_cast<unsigned int>(10 + ch - 'A');
             } else {
                 throw std::runtime_error("Invalid unicode escape");
+            }
+        }
+        return value;
+    }
+
+    std::string parse_unicode_escape() {
+        unsigned int codepoint = parse_hex4();
+        if (codepoint >= 0xD800 && codepoint <= 0xDBFF && pos_ + 6 <= input_.size() &&
+            input_[pos_] == '\\' && input_[pos_ + 1] == 'u') {
+            // a high surrogate followed by another escape: a low surrogate completes one supplementary code point
+            const auto rewind = pos_;
+            pos_ += 2;
+            const unsigned int low = parse_hex4();
+            if (low >= 0xDC00 && low <= 0xDFFF) {
+                codepoint = 0x10000 + ((codepoint - 0xD800) << 10) + (low - 0xDC00);
+            } else {
+                pos_ = rewind;
             }
         }
         std::string utf8;
